@@ -78,6 +78,8 @@ pub struct Hist<'c> {
 	pub handles: Vec<(Vec<u8>, std::sync::Arc<LockOf>)>,
 	/// two-worker schedules: some pipeline steps run with steps of other workers nested at a
 	/// hand-over site (`dbutil::do_step_nested`)
+	/// transactions that write the whole hot-page pool at once (multi-step index growth in one record)
+	pub bursts_left: u32,
 	pub nesting: bool,
 	/// reads against the model from INSIDE pipeline steps (at the library's hand-over sites)
 	pub midstep_reads: bool,
@@ -86,6 +88,10 @@ pub struct Hist<'c> {
 pub fn run_case(ctx: &Ctx, rep: &mut Report, profile: Profile, case_seed: u64, variant: u64) {
 	if profile == Profile::C06 {
 		sweep::run_sweep(ctx, rep, case_seed, variant);
+		return
+	}
+	if profile == Profile::C09 && variant % 16 == 7 {
+		crate::bulk::run_bulk(ctx, rep, case_seed, variant);
 		return
 	}
 	let mut rng = Rng::new(case_seed);
@@ -279,6 +285,7 @@ impl<'c> Hist<'c> {
 			f4_probe: profile == Profile::C11 && variant % 3 == 0,
 			fresh_key_counter: 0,
 			handles: vec![],
+			bursts_left: if variant % 3 != 0 { 1 } else { 0 },
 			nesting: profile != Profile::C11 && (variant / 2) % 3 == 1,
 			midstep_reads: profile != Profile::C11 && variant % 2 == 0,
 		}
@@ -469,6 +476,9 @@ impl<'c> Hist<'c> {
 			if self.profile == Profile::C09 {
 				w[2] = 14;
 				w[7] = 3;
+			} else if self.cfg.salt == Some([0u8; 32]) {
+				// identity-hashed columns grow their index: give the reindex stage its share
+				w[2] = w[2].max(8);
 			}
 			if !matches!(self.profile, Profile::C08 | Profile::C11) {
 				w[10] = 0;
@@ -594,6 +604,9 @@ impl<'c> Hist<'c> {
 				rep.count("growth_from_reindex_batch", grown as u64);
 			} else {
 				rep.count("growth_from_commit", grown as u64);
+				if grown >= 2 {
+					rep.count("growth_multi_step_records", 1);
+				}
 			}
 		}
 		for c in &after.columns {
@@ -689,6 +702,19 @@ impl<'c> Hist<'c> {
 				};
 				let n = if self.profile == Profile::C09 { n.max(1) * 3 } else { n };
 				let n = if self.pools[c as usize].len() >= 200 { n * 12 } else { n };
+				let o = &self.cfg.cols[c as usize];
+				if o.uniform && self.cfg.salt == Some([0u8; 32]) && self.bursts_left > 0 && self.accepted > 1 && self.rng.chance(1, 10) {
+					// burst: every key of the (hot-page) pool written by ONE transaction, so that a
+					// single log record grows the index by several steps
+					self.bursts_left -= 1;
+					let preimage = o.preimage;
+					let keys = self.pools[c as usize].clone();
+					for k in keys {
+						let v = if preimage { gen::value_for_key(&k, self.big_values) } else { self.rng.bytes_in(0, 48) };
+						tx.push(Op::Set(c, k, v));
+					}
+					continue
+				}
 				self.gen_kv_ops(c, n, &mut tx);
 			}
 		}
@@ -830,7 +856,10 @@ impl<'c> Hist<'c> {
 		}
 		let mut invalid_kind = None;
 		if self.profile == Profile::C08 && !self.bg_err && self.rng.chance(1, 4) {
-			invalid_kind = self.make_invalid(&mut tx);
+			invalid_kind = self.make_invalid(&mut tx, None);
+		} else if self.profile == Profile::C10 && self.rng.chance(1, 10) {
+			// C10: "an insertion that cannot be represented is rejected instead of being stored wrongly"
+			invalid_kind = self.make_invalid(&mut tx, Some(5));
 		}
 		self.commit_tx(db, rep, tx, invalid_kind)
 	}
@@ -911,7 +940,7 @@ impl<'c> Hist<'c> {
 	}
 
 	/// Insert one invalid operation at a random position; returns its kind.
-	fn make_invalid(&mut self, tx: &mut Vec<Op>) -> Option<&'static str> {
+	fn make_invalid(&mut self, tx: &mut Vec<Op>, forced_kind: Option<u64>) -> Option<&'static str> {
 		let cols = self.cfg.cols.clone();
 		let pick_col = |rng: &mut Rng, f: &dyn Fn(&parity_db::ColumnOptions) -> bool| -> Option<u8> {
 			let v: Vec<u8> = cols.iter().enumerate().filter(|(_, c)| f(c)).map(|(i, _)| i as u8).collect();
@@ -921,7 +950,7 @@ impl<'c> Hist<'c> {
 				Some(*rng.pick(&v))
 			}
 		};
-		let kind = self.rng.below(7);
+		let kind = forced_kind.unwrap_or_else(|| self.rng.below(7));
 		let (op, name): (Op, &'static str) = match kind {
 			0 => {
 				let c = pick_col(&mut self.rng, &|c| !c.multitree && !c.ref_counted && !c.btree_index)?;
